@@ -385,3 +385,63 @@ func randValue(rng *rand.Rand, t reflect.Type, depth int, tag string) reflect.Va
 	}
 	return v
 }
+
+// fullValue: a destination that is anything but zero - what a variable holds after it was used
+// for a larger value of the type, or a struct initialised with defaults: slices of three
+// elements, pointers set, integers non-zero, arrays filled, interfaces holding a list.
+func fullValue(t reflect.Type, depth int) reflect.Value {
+	v := reflect.New(t).Elem()
+	switch {
+	case t == rawType:
+		v.SetBytes([]byte{0xc3, 0x01, 0x02, 0x03})
+		return v
+	case t == bigPtrType:
+		v.Set(reflect.ValueOf(new(big.Int).Lsh(big.NewInt(0xeeee), 80)))
+		return v
+	case t == bigType:
+		v.Set(reflect.ValueOf(*new(big.Int).Lsh(big.NewInt(0xeeee), 80)))
+		return v
+	}
+	switch t.Kind() {
+	case reflect.Uint8, reflect.Uint16, reflect.Uint32, reflect.Uint64, reflect.Uint:
+		v.SetUint(0xee)
+	case reflect.Bool:
+		v.SetBool(true)
+	case reflect.String:
+		v.SetString("previous content of the destination")
+	case reflect.Slice:
+		n := 3
+		if depth > 2 {
+			n = 0
+		}
+		if isByteType(t.Elem()) {
+			v.SetBytes([]byte{0xee, 0xee, 0xee, 0xee, 0xee, 0xee, 0xee})
+			return v
+		}
+		s := reflect.MakeSlice(t, n, n+2)
+		for i := 0; i < n; i++ {
+			s.Index(i).Set(fullValue(t.Elem(), depth+1))
+		}
+		v.Set(s)
+	case reflect.Array:
+		for i := 0; i < t.Len(); i++ {
+			v.Index(i).Set(fullValue(t.Elem(), depth+1))
+		}
+	case reflect.Struct:
+		for i := 0; i < t.NumField(); i++ {
+			if t.Field(i).PkgPath == "" {
+				v.Field(i).Set(fullValue(t.Field(i).Type, depth+1))
+			}
+		}
+	case reflect.Ptr:
+		if depth > 2 {
+			return v
+		}
+		p := reflect.New(t.Elem())
+		p.Elem().Set(fullValue(t.Elem(), depth+1))
+		v.Set(p)
+	case reflect.Interface:
+		v.Set(reflect.ValueOf([]interface{}{[]byte{0xee}, []interface{}{[]byte{1, 2}}}))
+	}
+	return v
+}
